@@ -8,8 +8,11 @@ import tempfile
 from . import common as C
 
 PID = "C18"
-FILES = ["main.py", "util.py", "test_main.py", "main_test.py", "contest_x.py", "stubs.pyi", ".hidden.py", "UPPER.PY", "notes.txt", "conftest.py", "setup.py", "a.b.py"]
-DIRS = ["pkg", "sub", "tests", ".cache", "venv", "build", "My.egg-info", "node_modules", "Env", "docs", "__pycache__", "src"]
+FILES = ["main.py", "util.py", "test_main.py", "main_test.py", "contest_x.py", "stubs.pyi", ".hidden.py", "UPPER.PY", "notes.txt", "conftest.py", "setup.py", "a.b.py",
+         "Main.py", "Util.py", "helpers.py", "vec.py"]        # names that differ only in case are different files
+DIRS = ["pkg", "sub", "tests", ".cache", "venv", "build", "My.egg-info", "node_modules", "Env", "docs", "__pycache__", "src",
+        # directories whose NAME matches a file pattern (patterns select files, they do not prune directories), and pairs that differ only in case
+        "test_support", "legacy_api", "x_test", "test_vectors.py", "api", "API", "Pkg", "proto_pb2_utils"]
 SEGS = ["a", "b", "ab", "test_x.py", "x_test.py", "*.py", "*", "?", "a*", "*b", "**", "t?st_*.py", "*.pyi", ".h", "main.py", "test_*.py", "*_test.py", "pkg", "sub"]
 NAMES = ["a", "b", "ab", "test_x.py", "x_test.py", "main.py", "s.pyi", ".h", "pkg", "sub", "tast_q.py", "aXb", "x.py"]
 PATTERN_SETS = [
@@ -22,6 +25,9 @@ PATTERN_SETS = [
     (["**"], ["pkg/*.py", "**/tests/**"]),
     (["**/*.py"], ["sub/**", "*/sub/**"]),
     (["*"], ["**/*.pyi", "t?st_*.py"]),
+    (["**/*.py"], ["test_*", "pkg/*"]),
+    (["**/*.py"], ["**/legacy*", "**/sub", "*_pb2*"]),
+    (["**/*.py"], ["API/*", "*/api/*", "x_test"]),
 ]
 
 
@@ -52,8 +58,12 @@ def spellings(base, proj):
     absd = os.path.join(base, proj)
     other = os.path.join(base, "elsewhere")
     os.makedirs(other, exist_ok=True)
+    # a symbolic link to the directory is one more way to spell it (with and without the trailing slash that makes the OS resolve it)
+    lnk = "lnk_" + proj.replace(".", "_")
+    if not os.path.lexists(os.path.join(base, lnk)):
+        os.symlink(proj, os.path.join(base, lnk))
     return [(absd, "."), (absd, "./"), (base, proj), (base, proj + "/"), (base, "./" + proj), (base, absd), (base, absd + "/"), (other, "../" + proj), (other, "../elsewhere/../" + proj),
-            (absd, "../" + proj), ("/", absd.lstrip("/"))]
+            (absd, "../" + proj), ("/", absd.lstrip("/")), (base, lnk), (base, lnk + "/"), (other, "../" + lnk), (base, os.path.join(base, lnk))]
 
 
 def clean_prefix(target):
@@ -115,7 +125,7 @@ def run(tier, seed, replay=None):
             if "sample_tree" not in hist:
                 hist["sample_tree"] = ["/".join(r) for r in tree[:12]]
             sp = spellings(base, PROJ)
-            psets = [PATTERN_SETS[0]] + rng.sample(PATTERN_SETS[1:], 3)
+            psets = [PATTERN_SETS[0]] + rng.sample(PATTERN_SETS[1:], 4)
             calls, meta = [], []
             for inc, exc in psets:
                 for recursive in (True, False):
@@ -160,7 +170,8 @@ def run(tier, seed, replay=None):
                         break
             # several targets at once: overlapping and file targets; every file once
             dirs = sorted(set("/".join(r[:-1]) for r in tree if len(r) > 1 and not any(c.startswith(".") for c in r)))
-            pyfiles = ["/".join(r) for r in tree if r[-1].lower().endswith((".py", ".pyi"))]
+            # (a hidden file named explicitly as a target is outside the model: the walk's hidden rule does not apply to what was asked for by name — not judged)
+            pyfiles = ["/".join(r) for r in tree if r[-1].lower().endswith((".py", ".pyi")) and not r[-1].startswith(".")]
             multi = []
             if dirs:
                 multi.append([PROJ, PROJ + "/" + rng.choice(dirs)])
@@ -206,7 +217,7 @@ def run(tier, seed, replay=None):
             if ti < (4 if tier == "quick" else 30):
                 for cfg_name, (inc, exc) in (("default", PATTERN_SETS[0]), ("custom", psets[1])):
                     seen = []
-                    for cwd, target in sp[:7] if tier == "quick" else sp:
+                    for cwd, target in (sp[:7] + sp[11:13]) if tier == "quick" else sp:
                         extra = ["--select", "complexity", "--min-complexity", "1"]
                         if cfg_name == "custom":
                             cfgp = os.path.join(base, "cfg.toml")
@@ -228,8 +239,13 @@ def run(tier, seed, replay=None):
                             if fl is None and not want:
                                 continue        # nothing to analyse: the CLI reports an error instead of an empty report
                             if fl != want:
+                                sig_ = dict({"kind": "cli-selection", "patterns": cfg_name}, **({"empty_list_in_config": True} if cfg_name == "custom" and (not inc or not exc) else {}))
+                                k_ = C.classify(PID, sig_)
+                                if k_:
+                                    res.known_finding(k_, "(include %s exclude %s: analysed %d files, the patterns select %d)" % (inc, exc, len(fl or []), len(want)))
+                                    break
                                 res.violation("C18 (CLI, %s patterns): `pyscn analyze %s` from %s analyses %s, expected %s %s" % (cfg_name, target, cwdr, fl, want, err),
-                                              {"signature": {"kind": "cli-selection", "patterns": cfg_name}, "tree": ["/".join(r) for r in tree], "include": inc, "exclude": exc, "target": target, "cwd": cwdr})
+                                              {"signature": dict({"kind": "cli-selection", "patterns": cfg_name}, **({"empty_list_in_config": True} if cfg_name == "custom" and (not inc or not exc) else {})), "tree": ["/".join(r) for r in tree], "include": inc, "exclude": exc, "target": target, "cwd": cwdr})
                                 break
                     for target, cwdr, fl, err in seen[1:]:
                         if fl != ref[2]:
@@ -244,7 +260,7 @@ def run(tier, seed, replay=None):
         "evaluations": hist["glob_pairs"] + hist["collect_calls"] + hist["cli_runs"] + hist["multi_target_calls"],
         "distinct_nontrivial": len(nontrivial),
         "rule": "generated trees (depth <= 3, file names incl. test_*.py, *_test.py, .hidden.py, *.pyi, UPPER.PY, non-Python; directory names incl. hidden, venv, build, *.egg-info, "
-                "node_modules, Env); per tree the default patterns + 3 of 8 other pattern sets x recursive on/off x 11 spellings of the target (., ./, rel, rel/, ./rel, abs, abs/, "
+                "node_modules, Env); per tree the default patterns + 3 of 8 other pattern sets x recursive on/off x 15 spellings of the target (a symbolic link to it with and without trailing slash, relative and absolute; ., ./, rel, rel/, ./rel, abs, abs/, "
                 "../rel, a/../rel, from 4 working directories incl. /); overlapping and repeated targets; the real CLI with default and configured patterns; non-trivial = a "
                 "(tree, pattern set) that selects at least one file",
         "samples": [{"tree": hist.get("sample_tree"), "patterns": PATTERN_SETS[0], "spellings": [".", "./", "proj", "proj/", "<abs>", "../proj", "a/../proj"]}],
